@@ -1,13 +1,13 @@
 #!/bin/bash
 # Build the whole Coq development from files on disk (full .vo build), then the proof-hygiene gate.
 set -e
-cd /verif/coq
+HERE="$(cd "$(dirname "$0")/.." && pwd)"
+cd "$HERE/coq"
 find theories -name '*.v' | sort > /tmp/.bt_vfiles.$$
 coq_makefile -f _CoqProject -o Makefile $(cat /tmp/.bt_vfiles.$$) > /dev/null
 rm -f /tmp/.bt_vfiles.$$ .Makefile.d
-mkdir -p /verif/build
-find theories -name '*.v' | sed 's#^\./##' | sort | tr '\n' '\n' > /dev/null
-timeout 3000 make -j16 > /verif/build/setup_make.log 2>&1 || { tail -30 /verif/build/setup_make.log; exit 1; }
+mkdir -p "$HERE/build"
+timeout 3000 make -j16 > $HERE/build/setup_make.log 2>&1 || { tail -30 $HERE/build/setup_make.log; exit 1; }
 # hygiene gate: nothing admitted, no axioms declared, no checks switched off
 if grep -rnE '\bAdmitted\b|\badmit\b|^\s*(Axiom|Parameter|Conjecture)\b|Unset Guard|bypass_check|type-in-type|Admit Obligations' theories --include='*.v'; then
   echo "hygiene gate failed"; exit 1
